@@ -14,6 +14,7 @@ import (
 	"sync"
 	"time"
 
+	"github.com/99designs/gqlgen/graphql/handler/apollotracing"
 	"github.com/vektah/gqlparser/v2/ast"
 	"github.com/vektah/gqlparser/v2/parser"
 	"github.com/vektah/gqlparser/v2/validator"
@@ -71,6 +72,10 @@ func main() {
 			defer func() { <-sem }()
 			env := univ.Bind(registry.Probes[name]())
 			srv := drive.NewServer(env).WithPresenter()
+			// the same schema behind a server with the Apollo tracing extension (a field interceptor
+			// that keeps per-response state): deferred groups run under their own response context
+			traced := drive.NewServer(env)
+			traced.Exec.Use(apollotracing.Tracer{})
 			wsT := newWSTransport(env)
 			defer wsT.close()
 			omit, _ := env.Probe.Options["nullable_input_omittable"].(bool)
@@ -117,6 +122,10 @@ func main() {
 					continue
 				}
 				runOp(rep, env, srv, name, opSeed, op, doc, omit, &mu, &evals)
+				if i%4 == 1 {
+					runOp(rep, env, traced, name, opSeed, op, doc, omit, &mu, &evals)
+					rep.Count("operations_rerun_with_apollo_tracing", 1)
+				}
 				if len(again) < 8 {
 					again = append(again, kept{opSeed, op, doc})
 				}
